@@ -274,10 +274,10 @@ Proof.
   assert (Hlen : In len bs /\ 12 <= len /\ len <= mlen (w_buf (b_w s)) /\
                  (b_sec s = 0 /\ len = 12 \/ b_sec s = 1 /\ len = e0 \/ b_sec s = 2 /\ len = e1 \/ b_sec s = 3 /\ len = e2)).
   { destruct (start_of_cases s Ls) as [[K E]|[[K E]|[[K E]|[K E]]]]; fold len in E; rewrite E.
-    - repeat split; auto; try lia.
-    - rewrite (S1 ltac:(lia)) in *. split; [apply I1; lia|]. repeat split; try lia. right; left; auto.
-    - rewrite (S2 ltac:(lia)) in *. split; [apply I2; lia|]. repeat split; try lia. right; right; left; auto.
-    - rewrite (S3 ltac:(lia)) in *. split; [apply I3; lia|]. repeat split; try lia. right; right; right; auto. }
+    - split; [exact I12|split; [lia|split; [lia|left; auto]]].
+    - split; [apply I1; lia|]. rewrite (S1 ltac:(lia)). split; [lia|split; [lia|right; left; auto]].
+    - split; [apply I2; lia|]. rewrite (S2 ltac:(lia)). split; [lia|split; [lia|right; right; left; auto]].
+    - split; [apply I3; lia|]. rewrite (S3 ltac:(lia)). split; [lia|split; [lia|right; right; right; auto]]. }
   destruct Hlen as (Iin & Ll1 & Ll2 & Hcase).
   pose proof (truncate_sub c len (b_w s) w HT) as (Bw & _).
   assert (Lw : mlen (w_buf w) = len) by (rewrite Bw; apply mlen_firstn_le; exact Ll2).
@@ -317,4 +317,193 @@ Proof.
       split; [intros; apply in_filter_le; [apply I3; lia|rewrite (S3 ltac:(lia)); lia]|].
       apply in_filter_le; auto; lia.
   - apply CMax_set_count; auto. lia.
+Qed.
+
+(* -------------------------------------------------------------- one operation *)
+
+Lemma Layout_sections_only s a bs (s' : bstate) :
+  b_w s' = b_w s -> b_qd s' = b_qd s -> b_an s' = b_an s -> b_ns s' = b_ns s -> b_ar s' = b_ar s ->
+  Sections s' a -> StartsIn s' bs -> Layout s a bs -> Layout s' a bs.
+Proof.
+  intros Ew E1 E2 E3 E4 HS HSt (_ & HC & HF & _ & HM).
+  unfold Layout, buf_of, CMax in *. rewrite Ew, E1, E2, E3, E4. auto.
+Qed.
+
+Lemma step_layout c s a bs o s' r :
+  BW c s -> CountInv s a -> Layout s a bs -> wf_op o -> step c s o = (s', r) -> alive r ->
+  exists bs', Layout s' (acc_step (b_sec s) a o r) bs'.
+Proof.
+  intros HB HCt HL Hwf H AL. pose proof HB as (TB & SI & L12 & Lsec & R).
+  pose proof HL as (HS & HC & HF & HSt & HM).
+  assert (HW : WG c ok12 (b_w s)) by (split; [exact TB|split; [exact SI|exact HC]]).
+  destruct o as [q|rr|udp opts| | | |l]; cbn [step] in H; cbn [wf_op] in Hwf.
+  - destruct (N.eqb_spec (b_sec s) 0) as [E0|E0]; [|injection H as <- <-; exists bs; exact HL].
+    destruct (mb_push_cases c s (compose_question c q) HB (compose_question_spec c q))
+      as [(w' & Ef & E & X & TB' & SI' & _ & Lc)|[(e' & E)|(x & E & D)]]; rewrite E in H; injection H as <- <-.
+    + destruct (compose_question_ok c q (b_w s) w' HW L12 Hwf Ef) as ((_ & _ & CI') & HQ & _).
+      eexists. cbn [acc_step]. eapply Layout_push_q; eauto.
+    + exists bs. exact HL.
+    + unfold alive in AL. congruence.
+  - destruct (N.eqb_spec (b_sec s) 0) as [E0|E0]; [injection H as <- <-; exists bs; exact HL|].
+    destruct (mb_push_cases c s (compose_record c rr) HB (compose_record_spec c rr))
+      as [(w' & Ef & E & X & TB' & SI' & _ & Lc)|[(e' & E)|(x & E & D)]]; rewrite E in H; injection H as <- <-.
+    + destruct (compose_record_ok c rr (b_w s) w' HW L12 Hwf Ef) as ((_ & _ & CI') & HR & _).
+      eexists. cbn [acc_step]. eapply Layout_push_r; eauto.
+    + exists bs. exact HL.
+    + unfold alive in AL. congruence.
+  - destruct (N.eqb_spec (b_sec s) 3) as [E0|E0]; [|injection H as <- <-; exists bs; exact HL].
+    destruct (mb_push_cases c s (compose_opt c udp opts) HB (compose_opt_spec c udp opts))
+      as [(w' & Ef & E & X & TB' & SI' & _ & Lc)|[(e' & E)|(x & E & D)]]; rewrite E in H; injection H as <- <-.
+    + destruct (compose_opt_ok c udp opts (b_w s) w' HW L12 Hwf Ef) as ((_ & _ & CI') & HR & _).
+      eexists. cbn [acc_step]. eapply Layout_push_r; eauto. lia.
+    + exists bs. exact HL.
+    + unfold alive in AL. congruence.
+  - (* OpNext *)
+    destruct (N.ltb_spec (b_sec s) 3) as [L3|L3]; injection H as <- <-; [|exists bs; exact HL].
+    exists bs. cbn [acc_step].
+    destruct HS as (e0 & e1 & e2 & Q0 & R1 & R2 & R3 & S1 & S2 & S3).
+    destruct HCt as (_ & _ & _ & _ & z1 & z2 & z3). destruct HSt as (I12 & I1 & I2 & I3 & Im).
+    unfold buf_of in *.
+    assert (Hc : b_sec s = 0 \/ b_sec s = 1 \/ b_sec s = 2) by lia.
+    apply (Layout_sections_only s a bs); auto;
+      try (unfold set_sec, set_start; destruct (b_sec s + 1 =? 1); [|destruct (b_sec s + 1 =? 2)]; reflexivity).
+    + unfold Sections, buf_of, set_sec, set_start.
+      destruct Hc as [K|[K|K]]; rewrite K in *; cbn [N.add N.eqb Pos.eqb Pos.add Pos.succ b_w b_sec b_s1 b_s2 b_s3];
+        exists e0, e1, e2; (split; [exact Q0|split; [exact R1|split; [exact R2|split; [exact R3|]]]]).
+      * rewrite (z1 ltac:(lia)) in R1. rewrite (z2 ltac:(lia)) in R2. rewrite (z3 ltac:(lia)) in R3.
+        apply RsAt_nil_inv in R1, R2, R3. repeat split; intros; lia.
+      * rewrite (z2 ltac:(lia)) in R2. rewrite (z3 ltac:(lia)) in R3.
+        apply RsAt_nil_inv in R2, R3. split; [intros; apply S1; lia|]. split; intros; lia.
+      * rewrite (z3 ltac:(lia)) in R3. apply RsAt_nil_inv in R3.
+        split; [intros; apply S1; lia|]. split; [intros; apply S2; lia|intros; lia].
+    + unfold StartsIn, buf_of, set_sec, set_start.
+      destruct Hc as [K|[K|K]]; rewrite K in *; cbn [N.add N.eqb Pos.eqb Pos.add Pos.succ b_w b_sec b_s1 b_s2 b_s3];
+        (split; [exact I12|]); repeat split; intros; auto; try lia; try (apply I1; lia); try (apply I2; lia).
+  - (* OpBack *)
+    cbn [acc_step].
+    destruct (N.eqb_spec (b_sec s) 0) as [E0|E0]; [injection H as <- <-; exists bs; exact HL|].
+    destruct (rewind_inv c s HB) as (w & ET & ER & HB' & _). rewrite ER in H. injection H as <- <-.
+    pose proof HB' as (TBw & _). destruct (upd_proj s w 0) as (P0 & P1 & P2 & P3 & P4). rewrite P0 in TBw.
+    pose proof (Layout_rewind c s a bs w HB HCt HL ET TBw) as HL'.
+    eexists. set (s1 := set_count (set_w s w) 0) in *.
+    destruct HL' as (HS' & HC' & HF' & (J12 & J1 & J2 & J3 & Jm) & HM').
+    assert (Es : b_sec s1 = b_sec s) by exact P1.
+    apply (Layout_sections_only s1 _ _ (set_sec s1 (b_sec s - 1))); try reflexivity.
+    + destruct HS' as (e0 & e1 & e2 & Q0 & R1 & R2 & R3 & S1 & S2 & S3).
+      exists e0, e1, e2. unfold buf_of, set_sec in *; cbn [b_w b_sec b_s1 b_s2 b_s3].
+      split; [exact Q0|split; [exact R1|split; [exact R2|split; [exact R3|]]]].
+      split; [intros; apply S1; lia|split; [intros; apply S2; lia|intros; apply S3; lia]].
+    + unfold StartsIn, buf_of, set_sec in *; cbn [b_w b_sec b_s1 b_s2 b_s3].
+      split; [exact J12|]. split; [intros; apply J1; lia|]. split; [intros; apply J2; lia|]. split; [intros; apply J3; lia|exact Jm].
+    + split; [exact HS'|split; [exact HC'|split; [exact HF'|split; [split; [exact J12|split; [exact J1|split; [exact J2|split; [exact J3|exact Jm]]]]|exact HM']]]].
+  - (* OpRewind *)
+    destruct (rewind_inv c s HB) as (w & ET & ER & HB' & _). rewrite ER in H. injection H as <- <-.
+    pose proof HB' as (TBw & _). destruct (upd_proj s w 0) as (P0 & _). rewrite P0 in TBw.
+    eexists. cbn [acc_step]. eapply Layout_rewind; eauto.
+  - injection H as <- <-. exists bs. cbn [acc_step].
+    apply (Layout_sections_only s a bs); auto.
+Qed.
+
+Lemma init_layout c s0 : init c = Some s0 -> Layout s0 acc0 [12].
+Proof.
+  intros H. pose proof (init_good c s0 H) as (TB & SI & CI & L).
+  pose proof (init_inv c s0 H) as (HB & _).
+  unfold init in H. destruct (append_slice c _ empty_ws) as [w| | |] eqn:E; try discriminate. injection H as <-.
+  pose proof (append_slice_mlen _ _ _ _ E) as Lm. change (mlen (w_buf empty_ws)) with 0 in Lm.
+  change (mlen (repeat 0 (N.to_nat header_len))) with 12 in Lm.
+  apply append_slice_ok in E as [_ (a1 & a2 & a3)].
+  unfold Layout, Sections, StartsIn, CMax, buf_of; cbn [b_w b_sec b_s1 b_s2 b_s3 b_qd b_an b_ns b_ar acc0 a_q a_an a_ns a_ar].
+  rewrite Lm. split; [|split; [exact CI|split; [|split]]].
+  - exists 12, 12, 12. repeat split; try constructor; intros; lia.
+  - constructor; [|constructor]. split; [lia|]. unfold CUpTo. rewrite a1, a2, a3. cbn. auto.
+  - repeat split; try (left; reflexivity); intros; lia.
+  - lia.
+Qed.
+
+Lemma run_acc_layout c ops : forall s a bs s' a' ws,
+  BW c s -> CountInv s a -> Layout s a bs -> Forall wf_op ops ->
+  run_acc c s a ops = (s', a', ws) -> all_alive ws ->
+  BW c s' /\ CountInv s' a' /\ exists bs', Layout s' a' bs'.
+Proof.
+  induction ops as [|o r IH]; intros s a bs s' a' ws HB HC HL Hwf H AL; cbn [run_acc] in H.
+  - injection H as <- <- <-. eauto.
+  - inversion Hwf as [|? ? Ho Hr]; subst.
+    destruct (step c s o) as [s1 w] eqn:ES.
+    destruct (is_dead w) eqn:D.
+    + injection H as <- <- <-. inversion AL; subst. unfold alive in *. congruence.
+    + destruct (run_acc c s1 (acc_step (b_sec s) a o w) r) as [[s2 a2] ws2] eqn:ER.
+      injection H as <- <- <-. inversion AL; subst.
+      destruct (step_inv c s a o s1 w HB HC ES D) as (HB1 & HC1).
+      destruct (step_layout c s a bs o s1 w HB HC HL Ho ES D) as (bs1 & HL1).
+      eapply IH; eauto.
+Qed.
+
+(* --------------------------------------------------------------- reading back *)
+
+Lemma msg_of_split s : 12 <= mlen (buf_of s) ->
+  exists h, mlen h = 12 /\ msg_of s = h ++ skipn 12 (buf_of s) /\
+            bytes_at (msg_of s) 4 (be16 (b_qd s) ++ be16 (b_an s) ++ be16 (b_ns s) ++ be16 (b_ar s)).
+Proof.
+  intros L. unfold buf_of in *.
+  exists (firstn 4 (w_buf (b_w s)) ++ be16 (b_qd s) ++ be16 (b_an s) ++ be16 (b_ns s) ++ be16 (b_ar s)).
+  assert (L4 : mlen (firstn 4 (w_buf (b_w s))) = 4) by (unfold mlen in *; rewrite firstn_length; lia).
+  split; [rewrite !mlen_app, L4; reflexivity|]. split; [unfold msg_of; rewrite <- !app_assoc; reflexivity|].
+  unfold msg_of. rewrite <- L4.
+  replace (firstn 4 (w_buf (b_w s)) ++ be16 (b_qd s) ++ be16 (b_an s) ++ be16 (b_ns s) ++ be16 (b_ar s) ++ skipn 12 (w_buf (b_w s)))
+    with (firstn 4 (w_buf (b_w s)) ++ (be16 (b_qd s) ++ be16 (b_an s) ++ be16 (b_ns s) ++ be16 (b_ar s)) ++ skipn 12 (w_buf (b_w s)))
+    by (rewrite <- !app_assoc; reflexivity).
+  apply bytes_at_app.
+Qed.
+
+Lemma agree_msg_of s e : 12 <= mlen (buf_of s) -> agree_on (okb e) (buf_of s) (msg_of s).
+Proof.
+  intros L i v [Hi _] Hg. destruct (msg_of_split s L) as (h & Lh & E & _). rewrite E.
+  rewrite get_app_r by lia. rewrite Lh.
+  rewrite <- (firstn_skipn 12 (buf_of s)) in Hg. rewrite get_app_r in Hg.
+  - replace (mlen (firstn 12 (buf_of s))) with 12 in Hg; [exact Hg|]. unfold mlen in *. rewrite firstn_length. lia.
+  - unfold mlen in *. rewrite firstn_length. lia.
+Qed.
+
+Theorem layout_read s a bs :
+  12 <= mlen (buf_of s) -> CountInv s a -> Layout s a bs ->
+  exists a', rd_message (msg_of s) a = Ok a' /\ acc_eqb a' a = true.
+Proof.
+  intros L (c1 & c2 & c3 & c4 & _) ((e0 & e1 & e2 & Q0 & R1 & R2 & R3 & _) & _ & _ & _ & (m1 & m2 & m3 & m4)).
+  destruct (msg_of_split s L) as (h & Lh & E & Hb).
+  assert (Lm : mlen (msg_of s) = mlen (buf_of s)) by (apply msg_of_mlen; exact L).
+  pose proof (QsAt_end _ _ _ _ Q0) as [q1 q2]. pose proof (RsAt_end _ _ _ _ R1) as [r1 r1'].
+  pose proof (RsAt_end _ _ _ _ R2) as [r2 r2']. pose proof (RsAt_end _ _ _ _ R3) as [r3 r3'].
+  assert (Q0' : QsAt (msg_of s) 12 (a_q a) e0) by (eapply QsAt_agree; [apply agree_msg_of; exact L|lia|exact Q0]).
+  assert (R1' : RsAt (msg_of s) e0 (a_an a) e1) by (eapply RsAt_agree; [apply agree_msg_of; exact L|lia|exact R1]).
+  assert (R2' : RsAt (msg_of s) e1 (a_ns a) e2) by (eapply RsAt_agree; [apply agree_msg_of; exact L|lia|exact R2]).
+  assert (R3' : RsAt (msg_of s) e2 (a_ar a) (mlen (buf_of s))) by (eapply RsAt_agree; [apply agree_msg_of; exact L|lia|exact R3]).
+  apply bytes_at_split in Hb as [H1 Hb]. change (mlen (be16 (b_qd s))) with 2 in Hb.
+  apply bytes_at_split in Hb as [H2 Hb]. change (mlen (be16 (b_an s))) with 2 in Hb.
+  apply bytes_at_split in Hb as [H3 H4]. change (mlen (be16 (b_ns s))) with 2 in H4.
+  destruct (rd_questions_ok _ _ _ _ Q0') as (qs' & EQ & AQ).
+  destruct (rd_records_ok _ _ _ _ R1') as (r1s & E1 & A1).
+  destruct (rd_records_ok _ _ _ _ R2') as (r2s & E2 & A2).
+  destruct (rd_records_ok _ _ _ _ R3') as (r3s & E3 & A3).
+  exists (mkAcc qs' r1s r2s r3s). unfold rd_message.
+  rewrite (rd_u16_ok _ 4 _ (b_qd s) H1) by lia. cbn [bind fst snd].
+  change (4 + 2) with 6 in *. rewrite (rd_u16_ok _ 6 _ (b_an s) H2) by lia. cbn [bind fst snd].
+  change (6 + 2) with 8 in *. rewrite (rd_u16_ok _ 8 _ (b_ns s) H3) by lia. cbn [bind fst snd].
+  change (8 + 2) with 10 in *. rewrite (rd_u16_ok _ 10 _ (b_ar s) H4) by lia. cbn [bind fst snd].
+  rewrite c1, c2, c3, c4, !N.eqb_refl. cbn [andb negb].
+  rewrite EQ. cbn [bind fst snd]. rewrite E1. cbn [bind fst snd]. rewrite E2. cbn [bind fst snd].
+  rewrite E3. cbn [bind fst snd]. rewrite Lm, N.eqb_refl.
+  split; [reflexivity|]. unfold acc_eqb; cbn [a_q a_an a_ns a_ar]. rewrite AQ, A1, A2, A3. reflexivity.
+Qed.
+
+(* Any message assembled by any finite operation sequence parses back to
+   exactly the items whose push succeeded, in order and in the right sections,
+   with header counts equal to the numbers of successful pushes. *)
+Theorem build_parse c ops s0 s a ws :
+  init c = Some s0 -> Forall wf_op ops ->
+  run_acc c s0 acc0 ops = (s, a, ws) -> all_alive ws ->
+  exists a', rd_message (msg_of s) a = Ok a' /\ acc_eqb a' a = true.
+Proof.
+  intros HI Hwf HR AL. destruct (init_inv c s0 HI) as (HB0 & HC0).
+  destruct (run_acc_layout c ops s0 acc0 [12] s a ws HB0 HC0 (init_layout c s0 HI) Hwf HR AL) as (HB & HC & bs & HL).
+  destruct HB as (_ & _ & L & _). eapply layout_read; eauto.
 Qed.
